@@ -5,6 +5,9 @@ import (
 	"math/rand"
 	"regexp"
 	"strings"
+	"sync"
+
+	"github.com/GuanceCloud/platypus/pkg/parser"
 
 	"verif/internal/drive"
 	"verif/internal/gen"
@@ -45,6 +48,7 @@ func (c05) Plan(tier string, seed int64) []mon.Workload {
 		{Name: "nesting", N: 40},
 		{Name: "bytes", N: 3000 * m},
 		{Name: "number-soup", N: 4000 * m},
+		{Name: "concurrent-spellings", N: 12 * m, Procs: 8, MaxWorkers: 2},
 	}
 }
 
@@ -221,6 +225,9 @@ func (k c05) inputs(c *mon.Ctx, workload string, i int64) []string {
 }
 
 func (k c05) Describe(c *mon.Ctx, workload string, i int64) any {
+	if workload == "concurrent-spellings" {
+		return map[string]any{"round": i}
+	}
 	return map[string]any{"inputs": k.inputs(c, workload, i)}
 }
 
@@ -234,7 +241,72 @@ func msgClass(s string) string {
 	return s
 }
 
+// concurrent-spellings: "never crashes internally" also when several
+// goroutines parse at once (a loaded system parses scripts on many
+// goroutines). Each goroutine parses valid texts whose keywords are spelled
+// in fresh random letter case, so that any per-spelling work the lexer does
+// lazily happens while other goroutines are lexing. Oracle: every parse
+// returns a tree; a dead worker is the violation (the Go runtime kills the
+// process on an unsynchronised map access). The race detector itself is
+// C16's instrument, not used here.
+func (k c05) concurrent(c *mon.Ctx, i int64) {
+	words := []string{"if", "elif", "else", "for", "in", "break", "continue", "true", "false", "nil", "null"}
+	tmpl := "IF TRUE {\n  x = NIL\n} ELIF FALSE {\n  y = NULL\n} ELSE {\n  z = 1\n}\nFOR a IN [1, 2] {\n  IF a == 1 {\n    CONTINUE\n  }\n  BREAK\n}\nw = TRUE && !FALSE\n"
+	const G = 8
+	var wg sync.WaitGroup
+	var mu sync.Mutex
+	var bad []string
+	parses := 0
+	for g := 0; g < G; g++ {
+		wg.Add(1)
+		r := c.Sub(fmt.Sprint("g", g))
+		go func() {
+			defer wg.Done()
+			n := 0
+			for it := 0; it < 250; it++ {
+				text := tmpl
+				for _, w := range words {
+					up := strings.ToUpper(w)
+					for strings.Contains(text, up) {
+						b := []byte(w)
+						for j := range b {
+							if r.Intn(2) == 0 {
+								b[j] -= 32
+							}
+						}
+						text = strings.Replace(text, up, "\x00"+string(b)+"\x00", 1)
+					}
+				}
+				text = strings.ReplaceAll(text, "\x00", "")
+				st, err := parser.ParsePipeline("conc.p", text)
+				n++
+				if err != nil || st == nil {
+					mu.Lock()
+					if len(bad) < 3 {
+						bad = append(bad, fmt.Sprintf("%v\n%s", err, text))
+					}
+					mu.Unlock()
+				}
+			}
+			mu.Lock()
+			parses += n
+			mu.Unlock()
+		}()
+	}
+	wg.Wait()
+	c.Eval(parses)
+	c.Count("concurrent_parses", parses)
+	c.Nontrivial(fmt.Sprint("concurrent", i))
+	if len(bad) > 0 {
+		c.Violate("valid-text-rejected-under-concurrency", "a valid text was rejected while other goroutines were parsing: "+bad[0], map[string]any{"examples": bad})
+	}
+}
+
 func (k c05) Run(c *mon.Ctx, workload string, i int64) {
+	if workload == "concurrent-spellings" {
+		k.concurrent(c, i)
+		return
+	}
 	for _, text := range k.inputs(c, workload, i) {
 		c05CheckText(c, "c05.p", text)
 	}
